@@ -1,34 +1,80 @@
 """static texts for MANIFEST.json"""
-HOOK_COMMITS = ["7bb2255"]
+HOOK_COMMITS = ["7bb2255", "7785453"]
 
+KANI = "kani-contracts"
 META = {
  "C14": {
   "engine": "verus-weave + kani-contracts",
-  "design_ref": "DESIGN.md §4.1-4.3, §5 C14",
+  "design_ref": "DESIGN.md §4.1-4.3, §5 C14, §12.2",
   "technique": "Verus proof of extracted real functions against a reference-semantics post-condition; Kani cross-checks on the unextracted code",
-  "level_text": "Deductive proof (Verus/Z3) for every chain length, every application order and every word count: eval_binary's result equals the nearest-live-neighbour reference reduction, both NumberTracker impls satisfy the trait's bit-view contract, eval_numbers meets eval_binary's pre-condition in both branches. The verified text is cut from /repo on every run.",
-  "level_note": "Trusted: Verus+Z3; assume_specification for rotate_right/leading_ones/trailing_ones (re-checked for all usize by a complete Kani harness) and mem::take; operators are deterministic (A1); SmallVec~Vec; one external_body delegation (Verus quirk) with its implication lemma; deep.rs call site and flatex_to_deepex's inlined loop not covered.",
+  "level_text": "Deductive proof (Verus/Z3) for every chain length, every application order and every word count: eval_binary's result equals the nearest-live-neighbour reference reduction, both NumberTracker impls satisfy the trait's bit-view contract, and both tracker-selection sites (eval_numbers; DeepEx::eval_relaxed as a statement slice) meet eval_binary's pre-condition. The verified text is cut from /repo on every run.",
+  "level_note": "Trusted: Verus+Z3; assume_specification for rotate_right/leading_ones/trailing_ones (re-checked for all usize by a complete Kani harness) and mem::take; operators are deterministic (A1); SmallVec~Vec; one external_body delegation (Verus quirk) with its implication lemma; flatex_to_deepex's inlined copy of the loop is not covered.",
+ },
+ "C16": {
+  "engine": KANI, "design_ref": "DESIGN.md §4.7, §12.4-12.6",
+  "technique": "Kani function contracts (harness level) on every extracted entry of the value operator table, loop-free over the full scalar operand domain",
+  "level_text": "For every entry of ValOpsFactory::make() (named functions and closures, extracted as text on every run) the documented typing / error / promotion / comparison / if-else rule is a post-condition discharged by CBMC for all Int(i32) | Float(f64) | Bool | None | Error operands; entries flagged commutative are proved associative and commutative on their documented domain.",
+  "level_note": "Float primitives and float + - * /, and integer checked_mul/div/rem, are uninterpreted (stubbed) in the functional harnesses; `^` exact only for exponents 0..3 on a narrowed base set; arrays (len <= 3) only in the thorough tier; instantiation Val<i32,f64>; error-message text not verified; parser/precedence not covered.",
+ },
+ "C17": {
+  "engine": KANI, "design_ref": "DESIGN.md §4.7, §12.4-12.6",
+  "technique": "Kani: contract `returns` (no panic / overflow / failed unwrap / out-of-bounds) on every extracted entry of the value operator table, full scalar operand domain",
+  "level_text": "One generated loop-free harness per table entry proves, for all 25 ordered kind pairs and all 2^32 / 2^64 payload values, that the entry returns (rustc's overflow, shift, bounds and unwrap panics are in the program and checked by CBMC). Thorough tier adds arrays of length 0..=3.",
+  "level_note": "std::fmt::format stubbed (error text not verified); --no-overflow-checks drops only CBMC's own float-NaN instrumentation; float primitives uninterpreted (they cannot panic); entries verified as extracted text (G1/G3/G4), not through the run-time fn pointers; Val<i32,f64> only.",
+ },
+ "C19": {
+  "engine": KANI, "design_ref": "DESIGN.md §4.8, §12.4-12.6",
+  "technique": "Kani with -Z stubbing: every extracted entry of the float table equals the Rust primitive of its documented name, primitives uninterpreted",
+  "level_text": "For every operator and constant of FloatOpsFactory::<f64> and ::<f32> and all argument bit patterns the entry equals the primitive of its documented name with the documented argument order (distinct, order-sensitive tag functions stand for the primitives, so swapped functions or arguments are refuted); the table has exactly the documented 34 operators and 6 constants. Thorough tier repeats this through the run-time f64 table's fn pointers.",
+  "level_note": "std's primitives are the yardstick and are uninterpreted (incl. + - * / via the operator traits); abs/signum/floor/ceil/round/trunc/fract/min/max use CBMC's IEEE model; parsed-expression route (infix / call form) not covered.",
+ },
+ "C01": {
+  "engine": "verus-weave + kani-contracts", "design_ref": "DESIGN.md §4.2, §4.4-4.6, §5 C01",
+  "technique": "Verus proof of eval_binary (reference reduction) + Kani contracts on the order functions (bounded), unary composition (bounded) and the sign rule (complete)",
+  "level_text": "Partial. Proved for all sizes: reducing an operand array under a given order is the nearest-live-neighbour reduction. Complete finite domain: unary/binary role of sign-like operators. Bounded: order functions (3 operators quick / 4 thorough, priorities 0..=99, depth 0..=2: permutation, descending priority, left-to-right among equals with only AC-invisible regrouping, unary-carrying operator last in its group) and unary composition (chains <= 4).",
+  "level_note": "Not covered: tokenizer, make_expression (which operator a parenthesised unary is attached to — assumption A-attach), constant folding. Bounded parts are bounded stand-ins, not proofs.",
+ },
+ "C13": {
+  "engine": KANI, "design_ref": "DESIGN.md §4.5, §5 C13",
+  "technique": "Kani: complete harness over the finite domain of is_operator_binary; bounded harness for is_numeric_text",
+  "level_text": "Partial. Sign rule decided over its complete finite domain; number recogniser decided for all ASCII strings of <= 4 bytes (quick) / <= 6 bytes (thorough) against 'maximal digit/dot prefix with >= 1 digit and <= 1 dot'.",
+  "level_note": "Operator-name matching, longest match, identifier look-ahead and brace scanning live in the regex tokenizer and are not covered.",
+ },
+ "C09": {
+  "engine": KANI, "design_ref": "DESIGN.md §5 C09",
+  "technique": "Kani: loop-free contract on check_partial_index over all usize pairs",
+  "level_text": "Thin partial claim: check_partial_index(i, n, _) is Err iff i >= n, for all usize pairs (complete).",
+  "level_note": "Everything else of C09 (ordering of the checks, variable lists, derivative equalities) needs DeepEx and is not covered.",
+ },
+ "C07": {
+  "engine": KANI, "design_ref": "DESIGN.md §5 C07, §12.6",
+  "technique": "Kani: contract on check_parsed_token_preconditions for all token sequences up to a length bound",
+  "level_text": "Partial, bounded: for every token sequence of length 0, 1, 2 (quick) and 3 (thorough) over the seven token kinds the function rejects exactly the documented malformed shapes (empty, trailing operator, unbalanced / early-closing parentheses, forbidden adjacency).",
+  "level_note": "Bounded stand-in. Operand/operator count check and unknown-character rejection are in make_expression / the tokenizer and are not covered.",
+ },
+ "C15": {
+  "engine": KANI, "design_ref": "DESIGN.md §5 C15, §12.6",
+  "technique": "Kani: relational contract eval_flatex_consuming_vars == eval_flatex_cloning == reference reduction, with moved-flag and clone-counter operand type",
+  "level_text": "Bounded: 2 nodes (quick) / 3 nodes (thorough), each a symbolic literal-or-variable with optional unary function, symbolic order and values: both evaluators agree with an independent reference, no moved-out placeholder reaches an operator, a variable occurring once is not cloned.",
+  "level_note": "Bounded stand-in; eval_vec / eval_iter entry points and larger expressions not covered.",
+ },
+ "C04": {
+  "engine": KANI, "design_ref": "DESIGN.md §5 C04, §12.6",
+  "technique": "Kani: contracts on FlatEx::eval / eval_relaxed arity guards and index binding",
+  "level_text": "Partial, bounded: one-node FlatEx over two variables, symbolic variable index, slices of symbolic length 0..=4: eval errs iff length != 2, eval_relaxed iff length < 2, an Ok result is the value at the node's index.",
+  "level_note": "Name collection/order/lookup (find_parsed_vars, find_var_index), brace tokenisation, derived expressions, eval_vec/eval_iter and the deep form are not covered.",
  },
 }
 
 NOT_APPLICABLE = {
- "C01": "pending in this build (see DESIGN §5)",
  "C02": "constant folding lives in FlatEx::compile / DeepEx::compile: SmallVec surgery, closures, iterator chains and fn pointers are outside Verus; Kani did not finish a 3-node compile()+eval in 6 min; no contract in reach speaks about folding (DESIGN §9)",
  "C03": "every clause goes through make_expression / deep::make_expression / flatex_to_deepex / flatten_vecs and the regex tokenizer; neither verifier can execute them at an affordable cost (DESIGN §9)",
- "C04": "pending in this build",
  "C05": "needs real analysis over closures on DeepEx trees with String fields; floats/transcendentals are outside both verifiers (DESIGN §9)",
  "C06": "totality over all UTF-8 strings is a statement about the regex tokenizer and both parsers; only leaf obligations are provable and are reported under C14/C17/C13 (DESIGN §9)",
- "C07": "pending in this build",
  "C08": "the comma rewrite is state inside the tokenizer loop; it cannot be cut out mechanically and a re-typed copy would be a model (DESIGN §9)",
- "C09": "pending in this build",
  "C10": "histories of DeepEx constructions (operator table rebuilt and expression re-printed on every call): out of budget for Kani, out of language for Verus (DESIGN §9)",
  "C11": "same as C10: substitution is recursive DeepEx surgery with String names (DESIGN §9)",
  "C12": "about Debug/format! output being re-tokenisable: formatting is stubbed in Kani and unsupported in Verus (DESIGN §9)",
- "C13": "pending in this build",
- "C15": "pending in this build",
- "C16": "pending in this build",
- "C17": "pending in this build",
  "C18": "C05 over the value type (DESIGN §9)",
- "C19": "pending in this build",
  "C20": "quantifies over thread interleavings; Kani has no threads, Verus would need its own permission types; Send+Sync is discharged by rustc, not by this family (DESIGN §9)",
 }
